@@ -39,7 +39,10 @@ class Bounded:
         self.clauses[clause] = self.clauses.get(clause, 0) + 1
         if len(self.samples) < 4 and clause not in {s["clause"] for s in self.samples}:
             self.samples.append({"clause": clause, "case": key, **{k: v for k, v in info.items() if k in ("input", "observed")}})
-        if not ok and len(self.violations) < 5:
+        fk = info.get("finding_key")
+        if not ok and fk and any(v.get("key") == f"{clause}:{fk}" for v in self.violations):
+            return  # one representative per known-finding key; they never use up the room of other violations
+        if not ok and (fk or sum(1 for v in self.violations if not v.get("key")) < 5):
             self.violations.append({"clause": clause, "key": f"{clause}:{info.get('finding_key', '')}" if info.get("finding_key") else None, "case": key, **info})
 
     def result(self):
